@@ -63,7 +63,7 @@ pub type BoxFut<T> = Pin<Box<dyn Future<Output = T> + Send + 'static>>;
 
 impl ObjH {
     pub fn new(level: Level, obj: usize, w: &Arc<World>) -> ObjH {
-        let p = Payload { obj, log: Vec::new(), w: w.clone() };
+        let p = Payload { obj, log: Vec::new(), w: Arc::downgrade(w) };
         match level {
             Level::Desync => ObjH::D(Arc::new(Desync::new(p))),
             Level::Queue => ObjH::Q(scheduler::queue(), Arc::new(QCell(UnsafeCell::new(p)))),
@@ -238,6 +238,36 @@ impl Future for GateWait {
             this.w.hist(|| format!("suspend on gate g{} (op {:?})", this.g, this.op));
             Poll::Pending
         }
+    }
+}
+
+/// A yield-style future: its first poll wakes its own waker (so the wake-up arrives while the queue is still
+/// marked as running the poll) and returns Pending; the second poll is ready.
+pub struct SelfWake {
+    w: Arc<World>,
+    op: OpId,
+    polled: bool,
+}
+
+impl Future for SelfWake {
+    type Output = ();
+    fn poll(self: Pin<&mut Self>, cx: &mut Context<'_>) -> Poll<()> {
+        let this = self.get_mut();
+        if this.polled {
+            this.w.with(|i| i.ops[this.op].waiting_self = false);
+            return Poll::Ready(());
+        }
+        this.polled = true;
+        this.w.with(|i| {
+            i.stats.self_wakes += 1;
+            let o = &mut i.ops[this.op];
+            o.waiting_self = true;
+            o.suspend_step = rt::steps();
+            o.last_poll_task = rt::current();
+        });
+        this.w.hist(|| format!("self-wake during the poll (op {})", this.op));
+        cx.waker().wake_by_ref();
+        Poll::Pending
     }
 }
 
@@ -437,7 +467,7 @@ fn run_steps(w: &Arc<World>, op: OpId, p: &mut Payload, steps: &[Step], hs: &mut
                 block_on(&mut gw);
             }
             Step::Panic => do_panic(w, op),
-            Step::AwaitGate { .. } | Step::AwaitFutSync { .. } | Step::AwaitFutDesync { .. } => {}
+            Step::AwaitGate { .. } | Step::AwaitFutSync { .. } | Step::AwaitFutDesync { .. } | Step::SelfWake => {}
         }
     }
     w.check_inside(op);
@@ -480,6 +510,7 @@ fn fut_body<'a>(w: Arc<World>, id: OpId, p: &'a mut Payload, body: Vec<Step>, mu
                 Step::AwaitGate { g } => {
                     GateWait::new(&w, *g as usize, Some(id)).await;
                 }
+                Step::SelfWake => SelfWake { w: w.clone(), op: id, polled: false }.await,
                 Step::NestedDesync { o, body, id: nid } => nested_desync(&w, *o as usize, *nid, body, &hs),
                 Step::NestedSync { o, body, id: nid } => nested_sync(&w, *o as usize, *nid, body, &hs),
                 Step::NestedFutDesync { o, body, id: nid } => {
@@ -640,6 +671,20 @@ fn check_future_result(w: &Arc<World>, id: OpId, r: Result<Res, Canceled>) {
 }
 
 /// Drops a handle; if it is the last owner the drop must destroy the value exactly once before returning
+/// A handle on a panicked object cannot be dropped normally (Desync::drop panics by design). It is let go the way a
+/// panicking owner lets it go: dropped while unwinding, which frees the queue with whatever is still in it and leaves the
+/// value alone (keeping it forever instead costs several KB per generated case).
+fn dispose_panicked(h: ObjH) {
+    if !h.is_last_owner() {
+        drop(h);
+        return;
+    }
+    let _ = rt::catch_unwind(move || {
+        let _h = h;
+        panic!("dv: disposing of a panicked object");
+    });
+}
+
 fn release_handle(w: &Arc<World>, h: ObjH, o: usize, caller: Option<usize>) {
     let last = h.is_last_owner();
     if last {
@@ -658,7 +703,30 @@ fn release_handle(w: &Arc<World>, h: ObjH, o: usize, caller: Option<usize>) {
         }
     }
     let is_desync = matches!(h, ObjH::D(_));
-    drop(h);
+    if w.with(|i| i.panic_case) {
+        drop(h);
+    } else if caller.is_some() && w.case.cfg.unwinding_drops {
+        // the caller thread panics on its own account while it owns the handle: the handle is dropped by the unwinding
+        if last {
+            w.with(|i| i.stats.unwinding_last_owner_drops += 1);
+        }
+        struct DropsHandle(Option<ObjH>, Arc<World>, Option<usize>);
+        impl Drop for DropsHandle {
+            fn drop(&mut self) {
+                let h = self.0.take();
+                if let Err(msg) = rt::catch_unwind(move || drop(h)) {
+                    unexpected_panic(&self.1, "C05", self.2, msg);
+                }
+            }
+        }
+        let g = DropsHandle(Some(h), w.clone(), caller);
+        let _ = rt::catch_unwind(move || {
+            let _g = g;
+            panic!("dv: the caller panics while it owns a handle");
+        });
+    } else if let Err(msg) = rt::catch_unwind(move || drop(h)) {
+        unexpected_panic(w, "C05", caller, msg);
+    }
     if last {
         let (dead, drops) = w.with(|i| {
             i.objs[o].dropping_by = None;
@@ -792,6 +860,7 @@ fn pipe_item<'a>(w: Arc<World>, pipe_op: OpId, s: usize, p: &'a mut Payload, ite
                 Step::AwaitGate { g } => {
                     GateWait::new(&w, *g as usize, Some(id)).await;
                 }
+                Step::SelfWake => SelfWake { w: w.clone(), op: id, polled: false }.await,
                 Step::NestedDesync { o, body, id: nid } => {
                     // nested op ids inside pipe bodies are reused per item: only the first item uses them
                     let fresh = w.with(|i| i.ops[*nid].inv == 0);
@@ -873,6 +942,32 @@ impl<'a> Future for SlotFuture<'a> {
 impl CallerEnv {
     fn stage(&self, s: Stage) {
         self.w.set_stage(self.gidx, s);
+    }
+
+    /// The property that states what the call made by `op` must do (used when that call panics unexpectedly)
+    fn prop_of(&self, op: &Op) -> &'static str {
+        let slot_kind = |slot: &u8| match self.slots.get(*slot as usize).and_then(|s| s.as_ref()) {
+            Some(Slot::Fut { kind: Kind::FutSync, .. }) => "C08",
+            Some(Slot::Fut { .. }) => "C07",
+            Some(Slot::Suspend { .. }) | Some(Slot::Resumer { .. }) => "C13",
+            None => "C07",
+        };
+        match op {
+            Op::Desync { .. } => "C03",
+            Op::Sync { .. } => "C04",
+            Op::TrySync { .. } => "C09",
+            Op::FutDesync { .. } | Op::After { .. } => "C07",
+            Op::FutSync { .. } => "C08",
+            Op::Await { slot } | Op::SyncWait { slot } | Op::PollOnce { slot } | Op::DropFut { slot } | Op::Detach { slot } => slot_kind(slot),
+            Op::Release { .. } => "C05",
+            Op::Suspend { .. } | Op::AwaitSuspend { .. } | Op::Resume { .. } | Op::DropResumer { .. } => "C13",
+            Op::PipeIn { .. } => "C11",
+            Op::Pipe { .. } | Op::Consume { .. } => "C12",
+            Op::DropPipe { .. } => "C16",
+            Op::Attempt { .. } => "C15",
+            Op::OpenGate { .. } | Op::Rewake { .. } => "C06",
+            _ => "C03",
+        }
     }
 
     fn drop_slot(&mut self, slot: usize, detach: bool) {
@@ -1421,6 +1516,24 @@ pub fn target_op(case: &Case, phase: usize, caller: usize, idx: usize) -> Option
     }
 }
 
+/// A panic that no step of the case asked for came out of a call made by the harness. Never returns.
+fn unexpected_panic(w: &Arc<World>, prop: &'static str, caller: Option<usize>, msg: String) -> ! {
+    let first = msg.lines().next().unwrap_or("").to_string();
+    let in_harness = first.rsplit(" @ ").next().map(|loc| loc.starts_with("dv/src/") || loc.starts_with("vsched/src/") || loc.contains("/dv/src/") || loc.contains("/vsched/src/")).unwrap_or(false);
+    let (obj, op) = match caller {
+        Some(c) => w.with(|i| match i.callers[c].stage {
+            Stage::InCall(op) | Stage::Awaiting(op) | Stage::SyncWaiting(op) => (Some(i.ops[op].obj), Some(op)),
+            Stage::Dropping(o) => (Some(o), None),
+            _ => (None, None),
+        }),
+        None => (None, None),
+    };
+    if in_harness {
+        w.fail("HARNESS", "harness-panicked", obj, op, format!("the harness itself panicked: {}", first));
+    }
+    w.fail(prop, "call-panicked", obj, op, format!("a call on a healthy object panicked although no operation of this case panics: {}", first));
+}
+
 fn caller_main(w: Arc<World>, gidx: usize, ci: usize, ops: Vec<Op>, hs: Handles, catch_panics: bool) {
     let mut env = CallerEnv { w: w.clone(), ci, gidx, hs, slots: (0..NSLOTS).map(|_| None).collect(), pipes: (0..NSLOTS).map(|_| None).collect() };
     let _ = env.ci;
@@ -1435,7 +1548,14 @@ fn caller_main(w: Arc<World>, gidx: usize, ci: usize, ops: Vec<Op>, hs: Handles,
                 env.stage(Stage::Idle);
             }
         } else {
-            env.run_op(op);
+            // no operation of this case panics on purpose: a panic unwinding out of a library call is a failure of
+            // that call (it neither returned its value nor completed), reported against the property of the call
+            let prop = env.prop_of(op);
+            let envp: *mut CallerEnv = &mut env;
+            let r = rt::catch_unwind(|| unsafe { (*envp).run_op(op) });
+            if let Err(msg) = r {
+                unexpected_panic(&w, prop, Some(gidx), msg);
+            }
         }
     }
     // implicit end of scope: futures first, then pipes, then handles
@@ -1453,7 +1573,7 @@ fn caller_main(w: Arc<World>, gidx: usize, ci: usize, ops: Vec<Op>, hs: Handles,
         if let Some(h) = env.hs[o].take() {
             if panicked_objs[o] {
                 // dropping a panicked Desync outside unwinding panics by design: not part of any property
-                std::mem::forget(h);
+                dispose_panicked(h);
             } else {
                 release_handle(&w, h, o, Some(gidx));
             }
@@ -1711,7 +1831,7 @@ fn root_main(w: Arc<World>) {
         if let Some(h) = handles[o].take() {
             w.with(|i| i.root_stage = format!("final: drop o{}", o));
             if panicked[o] {
-                std::mem::forget(h);
+                dispose_panicked(h);
             } else {
                 release_handle(&w, h, o, None);
             }
@@ -1731,9 +1851,7 @@ fn root_main(w: Arc<World>) {
     }
     w.clear_wakers();
     w.with(|i| i.root_stage = "teardown: drop execution-local values".to_string());
-    if !panicked.iter().any(|p| *p) {
-        vsched::drop_exec_locals();
-    }
+    vsched::drop_exec_locals();
     w.with(|i| i.root_stage = "done".to_string());
 }
 
@@ -1779,7 +1897,7 @@ pub fn run_case(case: &Case, opts: &RunOpts) -> Outcome {
         verbose: opts.verbose,
     };
     let chooser = make_chooser(&case.sched);
-    let w = Arc::new(World { case, inner: Sh::new(inner) });
+    let w = Arc::new(World { case: Box::new(case), inner: Sh::new(inner) });
     let w2 = w.clone();
     let res = rt::run(cfg, chooser, Box::new(move || root_main(w2)));
     // hang analysis for executions that did not complete
@@ -1796,6 +1914,9 @@ pub fn run_case(case: &Case, opts: &RunOpts) -> Outcome {
         history: i.history.take().unwrap_or_default(),
         n_ops: i.ops.len(),
     });
+    if std::env::var("DV_DEBUG_LEAK").is_ok() && (res.status != rt::Status::Completed || res.unfinished_tasks != 0) {
+        eprintln!("LEAK status={:?} unfinished={} tasks={:?}", res.status, res.unfinished_tasks, res.tasks.iter().filter(|t| t.state != rt::TaskState::Finished).map(|t| (t.name.clone(), t.state.clone())).collect::<Vec<_>>());
+    }
     if res.status != rt::Status::Completed || res.unfinished_tasks != 0 {
         // library objects referenced from the shadow state must not be dropped outside the execution
         w.with(|i| {
@@ -1812,6 +1933,12 @@ pub fn run_case(case: &Case, opts: &RunOpts) -> Outcome {
                     std::mem::forget(wk);
                 }
             }
+            // the abandoned tasks keep the shadow state alive for good: give back what is plain data
+            i.ops = Vec::new();
+            i.callers = Vec::new();
+            i.violations = Vec::new();
+            i.history = None;
+            i.baton_waiters = Vec::new();
         });
         std::mem::forget(w);
     }
